@@ -550,7 +550,7 @@ func (x *Exec) applyContract(fc *FuncContract, key string, sig *types.Signature,
 		}
 	}
 	for _, w := range fc.Witnesses {
-		wn := strings.TrimSuffix(w.Name, ":float")
+		wn := witnessName(w.Name)
 		if _, ok := names[wn]; !ok {
 			names[wn] = x.freshWitness(w)
 		}
